@@ -391,11 +391,16 @@ type fakeStream struct {
 	r      io.Reader
 	w      *bytes.Buffer
 	remote peer.ID
+	chunk  int
 }
 
 func (s *fakeStream) Read(p []byte) (int, error) {
 	if s.r == nil {
 		return 0, io.EOF
+	}
+	// a stream hands data over as it arrives: at most `chunk` bytes per Read (0 = whatever is asked for)
+	if s.chunk > 0 && len(p) > s.chunk {
+		p = p[:s.chunk]
 	}
 	return s.r.Read(p)
 }
@@ -444,7 +449,11 @@ func (w *World) tFrame(toks []string) {
 				res = "panic"
 			}
 		}()
-		recv.handler(&fakeStream{r: bytes.NewReader(raw), remote: tpeer(2)})
+		chunk := 0
+		if len(toks) > 2 && strings.HasPrefix(toks[2], "chunk=") {
+			chunk = atoi(toks[2][6:])
+		}
+		recv.handler(&fakeStream{r: bytes.NewReader(raw), remote: tpeer(2), chunk: chunk})
 	}()
 	got := em.snapshot()
 	out := "none"
@@ -452,7 +461,12 @@ func (w *World) tFrame(toks []string) {
 		// print the sender and a digest-free summary: length and first bytes
 		i := strings.IndexByte(got[0], ':')
 		payload := unhx(strings.TrimPrefix(got[0][i+1:], "."))
-		out = fmt.Sprintf("from=%s len=%d head=%s", got[0][:i], len(payload), hx(payload[:min(len(payload), 16)]))
+		sum := 0
+		for k, b := range payload {
+			sum = (sum + (k%251+1)*int(b)) % 1000000007
+		}
+		out = fmt.Sprintf("from=%s len=%d head=%s tail=%s sum=%d", got[0][:i], len(payload), hx(payload[:min(len(payload), 16)]),
+			hx(payload[len(payload)-min(len(payload), 16):]), sum)
 	} else if len(got) > 1 {
 		out = fmt.Sprintf("multiple=%d", len(got))
 	}
